@@ -78,14 +78,31 @@ class _OldRewriter(ast.NodeTransformer):
     """old(<expr>)  ->  __old__(lambda: <expr>)  evaluated against the
     pre-state copy; fresh_ref(x) -> __fresh__(x)."""
 
+    _depth = 0
+
+    def visit_Lambda(self, node):
+        self._depth += 1
+        try:
+            self.generic_visit(node)
+        finally:
+            self._depth -= 1
+        return node
+
     def visit_Call(self, node):
         self.generic_visit(node)
+        if isinstance(node.func, ast.Name) and node.func.id == "implies" and len(node.args) == 2:
+            # lazy implication: the consequent may be undefined when the guard is false
+            return ast.copy_location(
+                ast.BoolOp(op=ast.Or(), values=[ast.UnaryOp(op=ast.Not(), operand=node.args[0]), node.args[1]]), node
+            )
         if isinstance(node.func, ast.Name) and node.func.id == "old":
             src = ast.unparse(node.args[0])
             return ast.copy_location(
                 ast.Call(
                     func=ast.Name(id="__old__", ctx=ast.Load()),
-                    args=[ast.Constant(src), ast.Call(func=ast.Name(id="locals", ctx=ast.Load()), args=[], keywords=[])],
+                    # lambda-bound names (quantified variables) stay visible inside old()
+                    args=[ast.Constant(src)]
+                    + ([ast.Call(func=ast.Name(id="locals", ctx=ast.Load()), args=[], keywords=[])] if self._depth else []),
                     keywords=[],
                 ),
                 node,
@@ -171,7 +188,15 @@ def check_call(contract, fn, args, kwargs=None, argnames=None, universe=None, ch
     ids_before = {id(v) for v in _reachable(bindings)}
 
     def __old__(src, loc=None):
-        return eval(_compile(src), old_env, dict(loc or {}))
+        if not loc:
+            return eval(_compile(src), old_env)
+        # a dict subclass is only consulted through __missing__ when it is the
+        # *locals* mapping: evaluate in a child environment that is both
+        tmp = Env.__new__(Env)
+        dict.update(tmp, old_env)
+        tmp.contract, tmp.universe = old_env.contract, old_env.universe
+        dict.update(tmp, {k: v for k, v in loc.items() if not k.startswith("__")})
+        return eval(_compile(src), tmp)
 
     try:
         if self_obj is not None:
